@@ -989,7 +989,8 @@ def scenario(rng, world):
     loops nested in a light loop while the caller has values pending; a routine defined inside a branch that
     is not taken or a loop body; index variables of caller and callee loops."""
     kind = rng.choice(['shadow', 'shadow', 'shadow', 'unwind', 'unwind', 'nested_def', 'nested_def', 'loop_in_loop',
-                       'arg_alias', 'arg_alias', 'paramless_local', 'paramless_local', 'computed_sources', 'late_macro', 'self_bound'])
+                       'arg_alias', 'arg_alias', 'paramless_local', 'paramless_local', 'computed_sources', 'late_macro', 'self_bound',
+                       'single_item_range'])
     g = rng.choice(['a', 'x', 'n', 'level'])
     items = []
     if kind == 'shadow':
@@ -1057,6 +1058,24 @@ def scenario(rng, world):
         b = K.block(body)
         items.append(('repeat in %s as lx %s' % (' and '.join(t for t, _ in srcs), b[0]),
                       '(SRepeat (LIn %s "lx" None) %s)' % (coq_list([c for _, c in srcs]), b[1])))
+        items.append(K.pr(K.lit(999)))
+    elif kind == 'single_item_range':
+        # a light loop with an interpolated variable over exactly one item (increment 0, nothing divided): the item is
+        # still the light's name, and nothing is left behind when the loop ends; the same for a count of one
+        name = world[0][0] if world else 'no such'
+        a, b_ = rng.randint(0, 5), rng.randint(6, 20)
+        body = K.block([K.pr(K.var('lx')), K.pr(K.var('v')), K.reg('hue', K.var('v')), K.set_light_var('lx')])
+        wr = '(WRange "v" (RLit (LInt %d)) (RLit (LInt %d)))' % (a, b_)
+        loop1 = ('repeat in "%s" as lx with v from %d to %d %s' % (name, a, b_, body[0]),
+                 '(SRepeat (LIn [SrcLight (RLit (LStr %s))] "lx" (Some %s)) %s)' % (coq_str(name), wr, body[1]))
+        b2 = K.block([K.pr(K.var('v'))])
+        loop2 = ('repeat 1 with v from %d to %d %s' % (a, b_, b2[0]), '(SRepeat (LCountWith (RLit (LInt 1)) %s) %s)' % (wr, b2[1]))
+        if rng.random() < 0.5:
+            items.append(K.define('once', [], [loop1, loop2, K.ret(K.lit(3))]))
+            items.append(K.pr(K.expr(*K.e_bin('+', K.e_lit(100), K.e_call('once', [])))))
+        else:
+            items.append(K.rep_count(K.lit(2), [loop1, loop2]))
+        items.append(loop1)
         items.append(K.pr(K.lit(999)))
     elif kind == 'self_bound':
         # the bounds of a range loop are evaluated before the index variable is initialised, even when they read it
